@@ -26,6 +26,8 @@ type ConcReq struct {
 	Kind string `json:"kind"`
 	U    string `json:"u"`
 	S    string `json:"s"`
+	// Shape: "" = the request reports usage and asks for units; "plain" = a release without usage (the session simply ends)
+	Shape string `json:"shape"`
 }
 
 type SchedEv struct {
@@ -234,7 +236,7 @@ func RunConc(env *Env, prefix, in, out string) error {
 					sched.mu.Unlock()
 					<-start
 					sched.sink("start")
-					res := map[string]any{"t": i + 1, "kind": r.Kind, "u": r.U, "s": r.S, "status": 0, "ref": "", "lsn": 0, "used": 0}
+					res := map[string]any{"t": i + 1, "kind": r.Kind, "u": r.U, "s": r.S, "status": 0, "ref": "", "lsn": 0, "used": 0, "rg": ""}
 					defer func() {
 						if p := recover(); p != nil {
 							res["status"] = -9
@@ -253,13 +255,26 @@ func RunConc(env *Env, prefix, in, out string) error {
 						res["lsn"] = myLsn
 						res["used"] = 3
 					case "release":
+						if r.Shape == "plain" {
+							st, _ := serve("POST", "/chargingdata/"+refs[r.U+"|"+r.S]+"/release",
+								fmt.Sprintf(`{"subscriberIdentifier":%q,"invocationSequenceNumber":2}`, supi(r.U)))
+							res["status"] = st
+							res["ref"] = refs[r.U+"|"+r.S]
+							break
+						}
 						st, _ := serve("POST", "/chargingdata/"+refs[r.U+"|"+r.S]+"/release", usageBody(r.U, 2, myLsn))
 						res["status"] = st
 						res["ref"] = refs[r.U+"|"+r.S]
 						res["lsn"] = myLsn
 						res["used"] = 2
 					case "recharge":
-						st, _ := serve("PUT", "/recharging/"+supi(r.U)+"_1", "")
+						// (for a recharge the session field names the rating group; default 1)
+						rg := "1"
+						if r.S != "" && r.S[0] >= '0' && r.S[0] <= '9' {
+							rg = r.S
+						}
+						res["rg"] = rg
+						st, _ := serve("PUT", "/recharging/"+supi(r.U)+"_"+rg, "")
 						res["status"] = st
 					}
 				}(i, r, myLsn)
@@ -299,6 +314,23 @@ func RunConc(env *Env, prefix, in, out string) error {
 				sched.openAll()
 			}
 			verifhook.Sink = nil
+			// what the concurrent phase left of the recharges: notifications received per rating group, rating type per group
+			time.Sleep(30 * time.Millisecond)
+			notifRgs := []int32{}
+			for _, nt := range env.TakeNotifs() {
+				notifRgs = append(notifRgs, nt.Rgs...)
+			}
+			rtypes := map[string]map[string]string{}
+			for u := range us {
+				rtypes[u] = map[string]string{}
+				if ue, ok := chf_context.GetSelf().ChfUeFindBySupi(supi(u)); ok && !missed {
+					ue.CULock.Lock()
+					for rg, t := range ue.RatingType {
+						rtypes[u][strconv.Itoa(int(rg))] = rtypeName(t)
+					}
+					ue.CULock.Unlock()
+				}
+			}
 			// follow-ups: every acknowledged session must still be usable
 			follow := []any{}
 			if !missed {
@@ -409,7 +441,7 @@ func RunConc(env *Env, prefix, in, out string) error {
 			results2 := []any{}
 			for _, r := range results {
 				if r == nil {
-					r = map[string]any{"t": 0, "kind": "lost", "u": "", "s": "", "status": -8, "ref": "", "lsn": 0, "used": 0}
+					r = map[string]any{"t": 0, "kind": "lost", "u": "", "s": "", "status": -8, "ref": "", "lsn": 0, "used": 0, "rg": ""}
 				}
 				results2 = append(results2, r)
 			}
@@ -421,7 +453,7 @@ func RunConc(env *Env, prefix, in, out string) error {
 			}
 			b, _ := json.Marshal(map[string]any{"trace": c.ID, "seq": seq, "action": "conc", "gated": c.Gated, "mix": c.Mix, "existing": c.Existing,
 				"events": evs, "results": results2, "follow": follow, "quiescent": q, "missed": missed, "unreplayable": unreplayable,
-				"credited": 1000000, "cost": 2})
+				"credited": 1000000, "cost": 2, "notifRgs": notifRgs, "rtypes": rtypes})
 			_, _ = w.Write(b)
 			_ = w.WriteByte('\n')
 			_ = w.Flush()
